@@ -204,10 +204,11 @@ let meta_string (m : cmeta) : string =
     sn m.c_binver; sn m.c_odi; b2s m.c_witness ]
 
 type header = { mutable cs : n; mutable gc : n; mutable to_ : n; mutable slots : n; mutable did : n;
+                mutable par : bool; mutable fail : string; mutable wb : string;
                 mutable files : (string * string) list (* path, data; reversed *) }
 
 let parse_header_fields (fields : string list) : header =
-  let h = { cs = snapshot_chunk_size; gc = N0; to_ = N0; slots = N0; did = N0; files = [] } in
+  let h = { cs = snapshot_chunk_size; gc = N0; to_ = N0; slots = N0; did = N0; par = false; fail = "none"; wb = ""; files = [] } in
   List.iter (fun kv ->
     match String.index_opt kv '=' with
     | None -> failwith ("bad header field " ^ kv)
@@ -219,6 +220,9 @@ let parse_header_fields (fields : string list) : header =
       else if k = "slots" then h.slots <- ns v
       else if k = "did" then h.did <- ns v
       else if k = "steady" then ()
+      else if k = "par" then h.par <- (v = "1")
+      else if k = "fail" then h.fail <- v
+      else if k = "wb" then h.wb <- expand_pieces v
       else if k.[0] = 'F' then begin
         let path, desc = match String.index_opt v '@' with
           | Some j -> string_of_hex (String.sub v 0 j), String.sub v (j + 1) (String.length v - j - 1)
@@ -273,6 +277,78 @@ let state_s (st : (string, v) state) : string =
 (* ---------- cases ---------- *)
 let fix_mid = drop_stream_on_invalid_chunk
 let fix_first = first_chunk_validated_before_discard
+
+(* ---------- stream mode ---------- *)
+let be32_s (x : int) = String.init 4 (fun i -> Char.chr ((x lsr (8 * (3 - i))) land 0xff))
+let le64_s (x : int) = String.init 8 (fun i -> Char.chr ((x lsr (8 * i)) land 0xff))
+
+(* a header the validator transcription accepts: ChecksumType 0, Version 2 *)
+let synthetic_header () =
+  let body = "\x38\x00\x40\x02" in
+  let h = le64_s (String.length body) ^ body ^ be32_s (crc32 body) in
+  h ^ String.make (header_size - String.length h) '\000'
+
+let parse_msg (f : string array) : ssmsg =
+  if f.(0) <> "M" then failwith "bad message";
+  let nf = int_of_string f.(10) in
+  let sfiles = List.init nf (fun i ->
+    let o = 11 + 4 * i in
+    { sf_path = bytes_of_hex f.(o); sf_size = ns f.(o + 1); sf_id = ns f.(o + 2); sf_meta = bytes_of_hex f.(o + 3) }) in
+  { m_shard = ns f.(1); m_to = ns f.(2); m_from = ns f.(3); m_index = ns f.(4); m_term = ns f.(5);
+    m_odi = ns f.(6); m_path = bytes_of_hex f.(7); m_fsize = ns f.(8); m_files = sfiles;
+    m_witness = (f.(9) = "1") }
+
+let src_of (h : header) =
+  (* h.files is latest first: like the file system, a later file under the same path wins *)
+  List.map (fun (p, d) -> ((if p = "" then [] else bytes_of_hex (hex_of_string p)), d)) h.files
+
+(* par=1: the streams are fed concurrently to the implementation; distinct snapshots do not
+   interfere (streams_independent), so the final state is that of any sequential order *)
+let run_parallel (id : string) (h : header) (body : string) =
+  let files = Array.of_list (List.rev_map snd h.files) in
+  let ops = List.filter (fun s -> s <> "") (List.map String.trim (Str.split (Str.regexp_string " ; ") body)) in
+  let st = ref (init : (string, v) state) in
+  let panics = ref 0 in
+  List.iter (fun o ->
+    let f = Array.of_list (split_ws o) in
+    if f.(0) = "A" then begin
+      let m = parse_meta f 1 in
+      let d = parse_data files f.(22) in
+      match step dapp vinit vadd vfinal fix_mid fix_first h.did h.gc h.to_ h.slots !st (OAdd (m, d)) with
+      | Done (st', _) -> st := st'
+      | Panic -> incr panics
+    end) ops;
+  let (tr, tmp, fin, _) = state_parts !st in
+  Printf.printf "%s end panics=%d T[%s] D[%s] F[%s] N=%d\n" id !panics (String.concat " " tr) (String.concat " " tmp)
+    (String.concat " " fin) (List.length !st.s_out);
+  List.iter (fun s -> Printf.printf "%s notif %s\n" id s) (sorted (List.map notif_s !st.s_out))
+
+(* G: Transport.SendSnapshot end to end. The sender is the model's send_message, the chunks
+   delivered before the injected failure go to the model receiver; one status report
+   (rejected iff a failure was injected) and one release of the snapshot are expected. *)
+let run_glue (id : string) (h : header) (body : string) =
+  let msg = parse_msg (Array.of_list (split_ws body)) in
+  if msg.m_witness then digest_skip := header_size;
+  let wdata = synthetic_header () ^ h.wb in
+  let chunks = match send_message dlen dsub h.cs h.did (src_of h) wdata msg with
+    | Some l -> l | None -> failwith "glue case: the model sender panics" in
+  let keep = if h.fail = "conn" then 0
+    else if String.length h.fail > 5 && String.sub h.fail 0 5 = "chunk"
+    then int_of_string (String.sub h.fail 5 (String.length h.fail - 5))
+    else List.length chunks in
+  let delivered = List.filteri (fun i _ -> i < keep) chunks in
+  let st = ref (init : (string, v) state) in
+  List.iter (fun c ->
+    match step dapp vinit vadd vfinal fix_mid fix_first h.did snapshot_gc_tick snapshot_chunk_timeout_tick
+            max_concurrent_slot !st (OAdd c) with
+    | Done (st', _) -> st := st'
+    | Panic -> failwith "glue case: the model receiver panics") delivered;
+  let (tr, tmp, fin, _) = state_parts !st in
+  let nn = List.length !st.s_out in
+  Printf.printf "%s g sent=1 status=[%s.%s.%s] compact=1 delivered=%d msgs=%d hs=%d T[%s] D[%s] F[%s]\n" id
+    (sn msg.m_shard) (sn msg.m_to) (if h.fail = "none" then "0" else "1") (List.length delivered) nn nn
+    (String.concat " " tr) (String.concat " " tmp) (String.concat " " fin);
+  digest_skip := 0
 
 let run_receiver (id : string) (h : header) (body : string) =
   let files = Array.of_list (List.rev_map snd h.files) in
@@ -329,16 +405,6 @@ let run_sender (id : string) (h : header) (body : string) =
   | Some chunks ->
     List.iteri (fun i (m, d) -> Printf.printf "%s %d c %s %s\n" id i (meta_string m) (digest d)) chunks
 
-(* ---------- stream mode ---------- *)
-let be32_s (x : int) = String.init 4 (fun i -> Char.chr ((x lsr (8 * (3 - i))) land 0xff))
-let le64_s (x : int) = String.init 8 (fun i -> Char.chr ((x lsr (8 * i)) land 0xff))
-
-(* a header the validator transcription accepts: ChecksumType 0, Version 2 *)
-let synthetic_header () =
-  let body = "\x38\x00\x40\x02" in
-  let h = le64_s (String.length body) ^ body ^ be32_s (crc32 body) in
-  h ^ String.make (header_size - String.length h) '\000'
-
 let run_stream (id : string) (fields : string list) (body : string) =
   let get k = let p = k ^ "=" in
     let f = List.find (fun s -> String.length s > String.length p && String.sub s 0 (String.length p) = p) fields in
@@ -390,7 +456,10 @@ let () =
         (sn snapshot_chunk_size) (sn snapshot_gc_tick) (sn snapshot_chunk_timeout_tick) (sn max_concurrent_slot)
         (sn transport_bin_version) (sn last_chunk_count) (hex_of_bytes snapshot_flag_filename) (sn snapshot_header_size)
     | id :: "T" :: fields -> run_stream id fields body
-    | id :: "R" :: fields -> run_receiver id (parse_header_fields fields) body
+    | id :: "G" :: fields -> run_glue id (parse_header_fields fields) body
+    | id :: "R" :: fields ->
+      let h = parse_header_fields fields in
+      if h.par then run_parallel id h body else run_receiver id h body
     | id :: "S" :: fields -> run_sender id (parse_header_fields fields) body
     | [] -> ()
     | id :: _ -> Printf.printf "%s ? unparsed\n" id)
